@@ -71,6 +71,13 @@ pub fn c14(args: &Args, reg: &[TypeEntry], log: &mut Log) {
             texts.insert(role.clone(), json!({"decl": decl, "rust": e.rust}));
             if let Ok(t) = &decl {
                 if let Ok(d) = parse::parse_decl(t) {
+                    if g["shape"] == "tagged-only" {
+                        // the tag value is the parent's own name: one spelling for every member of the group
+                        if let Ok(d2) = parse::parse_decl(&t.replace(&format!("\"{}\"", d.name), "\"Parent\"")) {
+                            bodies.insert(role.clone(), (d2.body.clone(), "Parent".to_string()));
+                            continue;
+                        }
+                    }
                     bodies.insert(role.clone(), (d.body.clone(), d.name.clone()));
                 }
             }
@@ -87,10 +94,12 @@ pub fn c14(args: &Args, reg: &[TypeEntry], log: &mut Log) {
         if let (Some((a, _)), Some((b, _))) = (bodies.get("name"), bodies.get("inline")) {
             checks.insert("name~inline".into(), equiv(&env, a, b));
         }
-        if let (Some((a, _)), Some(fname)) = (bodies.get("flat"), &fname) {
+        if let (Some((a, parent)), Some(fname)) = (bodies.get("flat"), &fname) {
             let shape = g["shape"].as_str().unwrap_or("");
             let expected_src = if shape == "named" {
                 format!("{{ own: number, }} & ({fname})")
+            } else if shape == "tagged-only" {
+                format!("{{ \"t\": \"{parent}\" }} & ({fname})")
             } else {
                 format!("{{ \"Va\": {{ own: number, }} & ({fname}) }} | \"Vb\"")
             };
